@@ -112,6 +112,8 @@ func checkC15(c *Check) {
 	ruleSyntheticEOF(c, p, "R15.4")
 	ruleOrderingGoroutineLatch(c, p, "R15.5")
 	ruleBlocksCloseLatch(c, p, "R15.6")
+	ruleStreamsThroughInterface(c, p, "R15.8")
+	c.RuleDoc["R15.8"] = "source and sink are used only through Read / Write / Close (= R07.10): every I/O failure passes the error rules"
 	ruleLockset(c, p, "R15.7")
 	c.RuleDoc["R15.7"] = "the sink-error latch is read only under its lock, inside the ordering goroutine, or in Blocks.close after the shutdown handshake (a read before the handshake misses errors of blocks still in flight)"
 }
